@@ -83,16 +83,27 @@ type rdV struct {
 	linSub []rdSub  // subtractions inside linBase
 	capTxt []string // min(…, X): the other operands
 	tuple  []*rdV   // results of a call of a helper with several results
+	// linear form Σ coef·term + lcK over opaque integer terms (canonical texts);
+	// lc == nil: the value is the single term txt (or the constant, if isLit)
+	lc  map[string]int64
+	lcK int64
 }
 
 type rdState struct {
 	atoms []string
 	wOK   bool // path feasible under the whole-file assumption
 	env   map[types.Object]*rdV
+	facts []rdDC // what the decisions taken on the path say about integer terms
+}
+
+// rdDC is the difference constraint x <= y + c over integer terms ("" = zero).
+type rdDC struct {
+	x, y string
+	c    int64
 }
 
 func rdClone(s *rdState) *rdState {
-	n := &rdState{atoms: append([]string(nil), s.atoms...), wOK: s.wOK, env: make(map[types.Object]*rdV, len(s.env))}
+	n := &rdState{atoms: append([]string(nil), s.atoms...), wOK: s.wOK, env: make(map[types.Object]*rdV, len(s.env)), facts: append([]rdDC(nil), s.facts...)}
 	for k, v := range s.env {
 		n.env[k] = v
 	}
@@ -118,6 +129,9 @@ type rdSite struct {
 	dom       map[string]bool // dominating atoms (normalised), nil until first visit
 	wReach    []string        // witnesses of whole-file paths reaching the site with a bad value
 	wAny      bool            // reached at all under W
+	bound     string          // the value whose length bounds the operand (indexed / sliced value)
+	vBad      []string        // witnesses: out of range for a valid in-text span on a path
+	vOK       int             // visits proved in range for every valid in-text span
 }
 
 type rdDecl struct {
@@ -139,6 +153,9 @@ type rdCtx struct {
 	active   map[*types.Func]bool
 	overflow bool
 	unsupp   int
+	spanTxt  map[string]bool // texts denoting the receiver's span
+	linesTxt map[string]bool // texts denoting the source text split into lines
+	sink     []rdDC
 }
 
 var rdDeclCache = map[*Ctx]map[*types.Func]rdDecl{}
@@ -171,7 +188,7 @@ func ruleRenderTotal(c *Ctx) []Obligation {
 		fd := c.MustFunc(a.pkg, a.recv, "Display")
 		p := c.Pkg(a.pkg)
 		rc := &rdCtx{c: c, info: p.TypesInfo, spanT: spanT, locT: locT, fd: fd, sites: map[string]*rdSite{},
-			decls: rdDecls(c), siteMemo: map[*types.Func]int{}, active: map[*types.Func]bool{}}
+			decls: rdDecls(c), siteMemo: map[*types.Func]int{}, active: map[*types.Func]bool{}, spanTxt: map[string]bool{}, linesTxt: map[string]bool{}}
 		if len(fd.Recv.List[0].Names) > 0 {
 			rc.recv, _ = p.TypesInfo.Defs[fd.Recv.List[0].Names[0]].(*types.Var)
 		}
@@ -293,6 +310,7 @@ func (rc *rdCtx) eval(fr *rdFrame, st *rdState, e ast.Expr) *rdV {
 		switch {
 		case base.k == rdRecv && types.Identical(tv.Type, rc.spanT):
 			v.k = rdSpan
+			rc.spanTxt[v.txt] = true
 		case base.k == rdRecv && rdIsStruct(tv.Type):
 			v.k = rdRecv
 		case base.k == rdSpan && types.Identical(tv.Type, rc.locT):
@@ -373,6 +391,26 @@ func (rc *rdCtx) eval(fr *rdFrame, st *rdState, e ast.Expr) *rdV {
 		v.fields = rdCat(a.fields, b.fields)
 		if rdIsInteger(tv.Type) {
 			v.k = rdInt
+		}
+		if (x.Op == token.ADD || x.Op == token.SUB) && rdIsInteger(tv.Type) {
+			la, ka := rdLC(a)
+			lb, kb := rdLC(b)
+			sign := int64(1)
+			if x.Op == token.SUB {
+				sign = -1
+			}
+			v.lc, v.lcK = map[string]int64{}, ka+sign*kb
+			for t, c := range la {
+				v.lc[t] += c
+			}
+			for t, c := range lb {
+				v.lc[t] += sign * c
+			}
+			for t, c := range v.lc {
+				if c == 0 {
+					delete(v.lc, t)
+				}
+			}
 		}
 		if (x.Op == token.ADD || x.Op == token.SUB) && a.iv.known && b.iv.known {
 			r := rdIv{known: true, wrapped: a.iv.wrapped || b.iv.wrapped}
@@ -510,6 +548,7 @@ func (rc *rdCtx) evalCall(fr *rdFrame, st *rdState, x *ast.CallExpr, t types.Typ
 	fn := CalleeOf(fr.info, x)
 	if fn != nil && fn.Pkg() != nil && fn.Pkg().Path() == "strings" && fn.Name() == "Split" {
 		v.lenLo = 1 // strings.Split with a non-empty separator returns >= 1 element
+		rc.linesTxt[v.txt] = true
 		return v
 	}
 	if r := rc.callW(fr, st, x); r != nil {
@@ -776,10 +815,21 @@ func (rc *rdCtx) bindStmt(fr *rdFrame, st *rdState, s ast.Stmt) {
 		}
 		return fr.info.Uses[id]
 	}
+	// a variable that changes: what earlier decisions said about it is gone
+	forget := func(obj types.Object) {
+		kept := st.facts[:0:0]
+		for _, f := range st.facts {
+			if !rdMentions(f.x, obj.Name()) && !rdMentions(f.y, obj.Name()) {
+				kept = append(kept, f)
+			}
+		}
+		st.facts = kept
+	}
 	bind := func(obj types.Object, name string, v *rdV) {
 		if obj == nil {
 			return
 		}
+		forget(obj)
 		if v != nil && v.txt == "" {
 			c := *v
 			c.txt = name
@@ -794,6 +844,9 @@ func (rc *rdCtx) bindStmt(fr *rdFrame, st *rdState, s ast.Stmt) {
 			st.env[obj] = v
 		case v.lenLo > 0:
 			st.env[obj] = &rdV{txt: name, lenLo: v.lenLo, tri: -1}
+			if rc.linesTxt[v.txt] {
+				rc.linesTxt[name] = true
+			}
 		default:
 			delete(st.env, obj)
 		}
@@ -827,11 +880,13 @@ func (rc *rdCtx) bindStmt(fr *rdFrame, st *rdState, s ast.Stmt) {
 		for _, l := range x.Lhs {
 			if o := objOf(l); o != nil {
 				delete(st.env, o)
+				forget(o)
 			}
 		}
 	case *ast.IncDecStmt:
 		if o := objOf(x.X); o != nil {
 			delete(st.env, o)
+			forget(o)
 		}
 	case *ast.DeclStmt:
 		gd, ok := x.Decl.(*ast.GenDecl)
@@ -852,6 +907,264 @@ func (rc *rdCtx) bindStmt(fr *rdFrame, st *rdState, s ast.Stmt) {
 			}
 		}
 	}
+}
+
+// ---- linear facts: what a valid in-text span and the path decisions imply ----
+
+// rdLC: the value as Σ coef·term + k.
+func rdLC(v *rdV) (map[string]int64, int64) {
+	if v.lc != nil {
+		return v.lc, v.lcK
+	}
+	if v.isLit {
+		return map[string]int64{}, v.iv.lo
+	}
+	return map[string]int64{v.txt: 1}, 0
+}
+
+// rdDiff: a - b as x - y + k with single terms x, y ("" = none); ok=false otherwise.
+func rdDiff(a, b *rdV) (x, y string, k int64, ok bool) {
+	la, ka := rdLC(a)
+	lb, kb := rdLC(b)
+	d := map[string]int64{}
+	for t, c := range la {
+		d[t] += c
+	}
+	for t, c := range lb {
+		d[t] -= c
+	}
+	k = ka - kb
+	for t, c := range d {
+		switch {
+		case c == 0:
+		case c == 1 && x == "":
+			x = t
+		case c == -1 && y == "":
+			y = t
+		default:
+			return "", "", 0, false
+		}
+	}
+	return x, y, k, true
+}
+
+// cmpFacts: the difference constraints of `a op b`.
+func rdCmpFacts(a, b *rdV, op token.Token) []rdDC {
+	if a.k != rdInt || b.k != rdInt {
+		return nil
+	}
+	x, y, k, ok := rdDiff(a, b) // a - b = x - y + k
+	if !ok || (x == "" && y == "") {
+		return nil
+	}
+	le := func(s int64) rdDC { return rdDC{x, y, -k - s} } // x - y + k <= -s
+	ge := func(s int64) rdDC { return rdDC{y, x, k - s} }  // x - y + k >= s
+	switch op {
+	case token.LEQ:
+		return []rdDC{le(0)}
+	case token.LSS:
+		return []rdDC{le(1)}
+	case token.GEQ:
+		return []rdDC{ge(0)}
+	case token.GTR:
+		return []rdDC{ge(1)}
+	case token.EQL:
+		return []rdDC{le(0), ge(0)}
+	}
+	return nil
+}
+
+// rdMentions: the term text contains the identifier as a whole word.
+func rdMentions(term, name string) bool {
+	for i := 0; i+len(name) <= len(term); i++ {
+		if term[i:i+len(name)] != name {
+			continue
+		}
+		isW := func(c byte) bool {
+			return c == '_' || c >= '0' && c <= '9' || c >= 'a' && c <= 'z' || c >= 'A' && c <= 'Z'
+		}
+		if (i == 0 || !isW(term[i-1]) && term[i-1] != '.') && (i+len(name) == len(term) || !isW(term[i+len(name)])) {
+			return true
+		}
+	}
+	return false
+}
+
+type rdGraph struct {
+	idx  map[string]int
+	d    [][]int64
+	cyc  bool
+	name []string
+}
+
+const rdNoEdge = int64(1) << 50
+
+func rdSolve(dcs []rdDC) *rdGraph {
+	g := &rdGraph{idx: map[string]int{}}
+	id := func(t string) int {
+		if i, ok := g.idx[t]; ok {
+			return i
+		}
+		g.idx[t] = len(g.name)
+		g.name = append(g.name, t)
+		return len(g.name) - 1
+	}
+	id("")
+	for _, c := range dcs {
+		id(c.x)
+		id(c.y)
+	}
+	n := len(g.name)
+	g.d = make([][]int64, n)
+	for i := range g.d {
+		g.d[i] = make([]int64, n)
+		for j := range g.d[i] {
+			if i != j {
+				g.d[i][j] = rdNoEdge
+			}
+		}
+	}
+	for _, c := range dcs {
+		i, j := g.idx[c.x], g.idx[c.y]
+		if c.c < g.d[i][j] {
+			g.d[i][j] = c.c
+		}
+	}
+	for k := 0; k < n; k++ {
+		for i := 0; i < n; i++ {
+			if g.d[i][k] >= rdNoEdge {
+				continue
+			}
+			for j := 0; j < n; j++ {
+				if g.d[k][j] < rdNoEdge && g.d[i][k]+g.d[k][j] < g.d[i][j] {
+					g.d[i][j] = g.d[i][k] + g.d[k][j]
+				}
+			}
+		}
+	}
+	for i := 0; i < n; i++ {
+		if g.d[i][i] < 0 {
+			g.cyc = true
+		}
+	}
+	return g
+}
+
+// le: does x <= y + c follow? (bound = the least c' with x <= y + c' that does)
+func (g *rdGraph) le(x, y string, c int64) (bool, int64, bool) {
+	i, ok1 := g.idx[x]
+	j, ok2 := g.idx[y]
+	if !ok1 || !ok2 || g.d[i][j] >= rdNoEdge {
+		return false, 0, false
+	}
+	return g.d[i][j] <= c, g.d[i][j], true
+}
+
+// validFacts: what "the span lies inside the text" means for the terms of this
+// renderer: 1 <= Start.Line <= End.Line <= len(lines); columns are 1-based and
+// at most one past the end of their line; lengths are not negative.
+func (rc *rdCtx) validFacts(extra []string) []rdDC {
+	var out []rdDC
+	for sp := range rc.spanTxt {
+		sl, el, sc, ec := sp+".Start.Line", sp+".End.Line", sp+".Start.Column", sp+".End.Column"
+		out = append(out, rdDC{"", sl, -1}, rdDC{sl, el, 0}, rdDC{"", sc, -1}, rdDC{"", ec, -1})
+		for ln := range rc.linesTxt {
+			out = append(out, rdDC{el, "len(" + ln + ")", 0})
+			out = append(out, rdDC{sc, "len(" + ln + "[" + sl + "-1])", 1}, rdDC{ec, "len(" + ln + "[" + el + "-1])", 1})
+		}
+	}
+	for _, t := range extra {
+		if strings.HasPrefix(t, "len(") {
+			out = append(out, rdDC{"", t, 0})
+		}
+	}
+	return out
+}
+
+// decideValid decides one visit of a site whose operand is computed from the
+// span: is it in range for every span that lies inside the text, given the
+// decisions taken on this path? ("", true): proved; (witness, false): a valid
+// span takes this path and leaves the range; ("", false) with skip: no verdict.
+func (rc *rdCtx) decideValid(st *rdState, s *rdSite, val *rdV) (witness string, proved, skip bool) {
+	if val == nil || val.k != rdInt || len(val.fields) == 0 {
+		return "", false, true
+	}
+	lc, k := rdLC(val)
+	pos, neg := "", ""
+	for t, c := range lc {
+		switch {
+		case c == 1 && pos == "":
+			pos = t
+		case c == -1 && neg == "":
+			neg = t
+		default:
+			return "", false, true // not a difference of two terms: no verdict
+		}
+	}
+	var terms []string
+	for _, f := range st.facts {
+		terms = append(terms, f.x, f.y)
+	}
+	terms = append(terms, pos, neg)
+	lenC := "len(" + s.bound + ")"
+	if s.kind != "repeat" && s.bound != "" {
+		terms = append(terms, lenC)
+	}
+	dcs := append(rc.validFacts(terms), st.facts...)
+	g := rdSolve(dcs)
+	if g.cyc {
+		return "", false, true // no valid span takes this path
+	}
+	// on one line the columns are ordered
+	added := false
+	for sp := range rc.spanTxt {
+		sl, el := sp+".Start.Line", sp+".End.Line"
+		if ok, _, _ := g.le(el, sl, 0); ok {
+			dcs = append(dcs, rdDC{sp + ".Start.Column", sp + ".End.Column", 0})
+			added = true
+		}
+	}
+	if added {
+		g = rdSolve(dcs)
+		if g.cyc {
+			return "", false, true
+		}
+	}
+	path := strings.Join(st.atoms, "; ")
+	// value = pos - neg + k >= 0  <=>  neg <= pos + k
+	if ok, b, has := g.le(neg, pos, k); !ok {
+		what := "the index"
+		if s.kind == "repeat" {
+			what = "the count"
+		}
+		lowest := "no lower bound follows"
+		if has {
+			lowest = fmt.Sprintf("only %s >= %d follows", val.txt, k-b)
+		}
+		return fmt.Sprintf("%s %s can be negative for a span inside the text (%s) on path {%s}", what, val.txt, lowest, path), false, false
+	}
+	if s.kind == "repeat" || s.bound == "" {
+		return "", true, false
+	}
+	// value <= len(container) - 1 (index) / len(container) (slice bound)
+	lim := int64(-1)
+	if s.kind == "slice" {
+		lim = 0
+	}
+	if neg != "" {
+		return "", true, false // a difference: only the sign is decided
+	}
+	if ok, b, has := g.le(pos, lenC, lim-k); !ok {
+		most := "no upper bound relative to " + lenC + " follows"
+		if has {
+			most = fmt.Sprintf("only %s <= %s follows from a valid span and the path", val.txt, lenC)
+			if b+k != 0 {
+				most = fmt.Sprintf("only %s <= %s%+d follows from a valid span and the path", val.txt, lenC, b+k)
+			}
+		}
+		return fmt.Sprintf("index %s can reach %s for a span inside the text: %s {%s}", val.txt, lenC, most, path), false, false
+	}
+	return "", true, false
 }
 
 // ---- conditions ----
@@ -1027,7 +1340,9 @@ func (rc *rdCtx) atomFacts(fr *rdFrame, st *rdState, e ast.Expr, taken bool) ([]
 			if !taken {
 				op = rdNegOp(op)
 			}
-			return []string{rc.norm(fr, st, x.X) + " " + op.String() + " " + rc.norm(fr, st, x.Y)}, true
+			va, vb := rc.eval(fr, st, x.X), rc.eval(fr, st, x.Y)
+			rc.sink = append(rc.sink, rdCmpFacts(va, vb, op)...)
+			return []string{va.txt + " " + op.String() + " " + vb.txt}, true
 		}
 	case *ast.CallExpr:
 		// a predicate helper that returns one expression
@@ -1173,6 +1488,15 @@ func (rc *rdCtx) visitSites(fr *rdFrame, st *rdState, n ast.Node) {
 				}
 			}
 		}
+		if operand != nil {
+			if wit, proved, skip := rc.decideValid(st, site, rc.eval(fr, st, operand)); !skip {
+				if proved {
+					site.vOK++
+				} else if len(site.vBad) < 3 {
+					site.vBad = append(site.vBad, wit)
+				}
+			}
+		}
 		if st.wOK {
 			site.wAny = true
 			if operand != nil {
@@ -1202,9 +1526,11 @@ func (rc *rdCtx) siteFor(fr *rdFrame, st *rdState, n ast.Node, kind string) *rdS
 	case *ast.IndexExpr:
 		s.what = rc.norm(fr, st, x)
 		s.container = rc.norm(fr, st, x.X)
+		s.bound = s.container
 		s.val, s.hasExpr = rc.eval(fr, st, x.Index), true
 	case *ast.SliceExpr:
 		s.what = rc.norm(fr, st, x.X) + "[…:…]"
+		s.bound = rc.norm(fr, st, x.X)
 		for _, b := range []ast.Expr{x.Low, x.High} {
 			if b != nil {
 				s.val, s.hasExpr = rc.eval(fr, st, b), true
@@ -1253,7 +1579,9 @@ func (rc *rdCtx) walker(fr *rdFrame, onReturnW func()) *Walker[*rdState] {
 					st.wOK = false
 				}
 			}
+			rc.sink = rc.sink[:0]
 			st.atoms = append(st.atoms, rc.atomStrs(fr, st, cond, taken)...)
+			st.facts = append(st.facts, rc.sink...)
 			return st, true
 		},
 		OnCase: func(st *rdState, sw *ast.SwitchStmt, vals, others []ast.Expr) (*rdState, bool) {
@@ -1296,7 +1624,9 @@ func (rc *rdCtx) walker(fr *rdFrame, onReturnW func()) *Walker[*rdState] {
 				st.wOK = false
 			}
 			if len(vals) == 1 {
-				st.atoms = append(st.atoms, tag.txt+" == "+rc.norm(fr, st, vals[0]))
+				vv := rc.eval(fr, st, vals[0])
+				st.atoms = append(st.atoms, tag.txt+" == "+vv.txt)
+				st.facts = append(st.facts, rdCmpFacts(tag, vv, token.EQL)...)
 			}
 			return st, true
 		},
@@ -1356,12 +1686,22 @@ func (rc *rdCtx) run(name string) []Obligation {
 		sort.Strings(dom)
 		hz := rc.hazards(s, dom)
 		o := Obligation{Key: key, Pos: c.Pos(s.node.Pos())}
+		if len(s.vBad) > 0 {
+			// not even a span that lies inside the text is safe here
+			o.Status, o.Nontrivial = Violated, true
+			o.Detail = fmt.Sprintf("%s → index out of range / negative Repeat count panic while rendering a VALID position (1 <= Start.Line <= End.Line <= number of lines, Start <= End): the condition that guards the site does not bound the operand that is used (%d of %d path visits proved in range)", s.vBad[0], s.vOK, s.paths)
+			obs = append(obs, o)
+			continue
+		}
 		if len(hz) == 0 {
 			o.Status = Discharged
 			o.Detail = fmt.Sprintf("guarded on all %d path visits by {%s}", s.paths, strings.Join(dom, "; "))
 		} else {
 			o.Status = Info
 			o.Detail = fmt.Sprintf("unguarded: %s. Dominating conditions: {%s}. A span that is inside the text (Line <= number of lines, Start <= End) does not trigger it; any producer of an out-of-text or inverted span does (see R-span-shape, R-diag-span)", strings.Join(hz, "; "), strings.Join(dom, "; "))
+		}
+		if s.vOK > 0 {
+			o.Detail += fmt.Sprintf(" [for spans inside the text: in range on %d of %d path visits, decided from the path conditions]", s.vOK, s.paths)
 		}
 		obs = append(obs, o)
 	}
